@@ -64,6 +64,12 @@ class G:
             if bare_star and any(k == "default" for _, k, _ in sig) and dflt is None and r.random() < 0.9:
                 dflt = "dko"  # the failing shape of C05/bare-star-dropped is kept rare
             sig.append(("ko", "kwonly", dflt))
+            if r.random() < 0.4:
+                # a second keyword-only parameter: with and without default in either order
+                d2 = r.choice([None, "dk2"])
+                if bare_star and d2 is None and (dflt is not None or any(k == "default" for _, k, _ in sig)) and r.random() < 0.9:
+                    d2 = "dk2"
+                sig.append(("k2", "kwonly", d2))
         if r.random() < 0.2:
             sig.append(("kw", "kwargs", None))
         return sig
@@ -270,10 +276,15 @@ def has_bare_star_shape(doc):
 
     def bad(d):
         kinds = [k for _, k, _ in d["sig"]]
-        if "varargs" in kinds or "kwonly" not in kinds or "default" not in kinds:
-            return any(bad(nd) for nd in d.get("nested", []))
-        if any(k == "kwonly" and dv is None for _, k, dv in d["sig"]):
-            return True
+        if "varargs" not in kinds and "kwonly" in kinds:
+            # the signature as it reads once the bare '*' is gone: invalid iff a parameter without default follows
+            # one with a default
+            seen_default = False
+            for _, k, dv in d["sig"]:
+                if k in ("default",) or (k == "kwonly" and dv is not None):
+                    seen_default = True
+                elif k in ("pos", "kwonly") and seen_default:
+                    return True
         return any(bad(nd) for nd in d.get("nested", []))
 
     return any(bad(d) for d in doc["defs"])
